@@ -100,6 +100,17 @@ func c09PairOracle(c c09PairCase) ev.Verdict {
 		return fail("harness:"+msg, "reference encoder: %v", err)
 	}
 	vd.Hash = ev.HashBytes(ref)
+	// every layout failure is keyed by its root cause: the first element (table order) at
+	// which a prefix of the message stops round-tripping through the library (see attribute)
+	plainFail := fail
+	fail = func(key, format string, a ...interface{}) ev.Verdict {
+		if len(key) > 7 && key[:7] == "layout:" {
+			if f := attribute(b, v); f != "" {
+				key = "layout:" + msg + "/" + f
+			}
+		}
+		return plainFail(key, format, a...)
+	}
 
 	// library -> wire -> table parser
 	m, err := b.build(v)
